@@ -4,7 +4,9 @@ from gosym.check import Task
 ID = 'C08'
 PKG = 'pkg/frame'
 HARNESS_FILES = ['pkg/frame/zz_verif_common.go', 'pkg/frame/zz_verif_dialect.go', 'pkg/frame/zz_verif_c02.go',
-                 'pkg/frame/zz_verif_c08.go']
+                 'pkg/frame/zz_verif_c08.go', 'pkg/frame/zz_verif_c05.go', 'pkg/frame/zz_verif_c06.go',
+                 'pkg/frame/zz_verif_export.go', 'pkg/frame/zz_verif_msgs.go', 'zz_verif_node.go', 'zz_verif_c10.go']
+KERNEL_PKGS = ['.']
 ROOTS = ['verifHarness_C08']
 ALLOW = 'bufio,io,encoding/binary,errors,bytes'
 INITS = 'io,bufio,errors,github.com/bluenviron/gomavlib/v3/pkg/message'
@@ -25,21 +27,28 @@ def tasks(tier):
         for n in lens:
             if n >= 0:
                 ts.append(Task('verifHarness_C08_D', [2, shape, n]))
+    # F: FixFrame after edits (root package)
+    for shape in range(4):
+        for sl in ([2] if shape != 1 else [0, 2, 5]):
+            ts.append(Task('verifHarness_C08_fix', [1, shape, 0, sl], pkg='.'))
+            ts.append(Task('verifHarness_C08_fix', [2, shape, 0, sl], pkg='.'))
+            ts.append(Task('verifHarness_C08_fix', [2, shape, 1, sl], pkg='.'))
     return ts
 
 
 def required_reach(tier):
-    return ['C08/N', 'C08/D']
+    return ['C08/N', 'C08/D', 'C08/F']
 
 
 def bounds(tier):
     return {'no_dialect': 'v1 / v2 / signed v2, payload lengths 0,1,3,255 (quick) or 0,1,2,3,9,64,254,255 (thorough), every byte symbolic',
+            'fixframe': 'received frame with arbitrary header and stale checksum/signature, message = arbitrary value of each harness shape (the edit), FixFrame, forward, next hop with InKey = OutKey: v1, v2 unsigned, v2 signed with an outgoing key',
             'dialect': 'harness dialect (4 shapes); v1 at the exact base length; v2 payload lengths around base/extended size and +1,+2 (quick) / '
                        'every length 0..extended+2 (thorough); every payload byte symbolic (so canonical, zero-padded, '
                        'bytes-after-NUL and unknown-trailing-bytes encodings are all included); checksum = spec value'}
 
 
-OUTSIDE = ['FixFrame after application edits (root package kernel: see C08 notes in DESIGN)', 'shipped message types (per-type layout is C03/C04)',
+OUTSIDE = ['shipped message types (per-type layout is C03/C04)',
            'signed frames through a dialect hop (the signature covers the payload, which re-encoding may change; the property requires the checksum only)']
 STUBS = ['x25 summarised by crcstep in the dialect harness (C02 lemmas); real x25 not involved without a dialect', 'bufio / io real source',
          'message.(*ReadWriter).Initialize executed from real SSA with reflect intrinsics']
